@@ -451,6 +451,10 @@ class Functor(pg_object.Object, utils.Functor):
       keyword_args[arg_name] = arg_value
 
     for arg_name, arg_value in kwargs.items():
+      if any(arg_name == signature.args[i].name for i in range(len(args))):
+        raise TypeError(
+            f'{signature.id}() got multiple values for argument {arg_name!r}.'
+        )
       if arg_name in self._specified_args:
         if not override_args:
           raise TypeError(
